@@ -43,6 +43,7 @@ type Session struct {
 	mu       sync.RWMutex
 	id       string
 	secure   bool
+	tunnel   string // authority of the MITM'd CONNECT tunnel the session is in, if any
 	hijacked bool
 	conn     net.Conn
 	brw      *bufio.ReadWriter
@@ -136,6 +137,24 @@ func (s *Session) Hijack() (net.Conn, *bufio.ReadWriter, error) {
 	s.hijacked = true
 
 	return s.conn, s.brw, nil
+}
+
+// setTunnelAuthority records the authority (host:port) of the CONNECT request
+// whose tunnel is being MITM'd on this session.
+func (s *Session) setTunnelAuthority(authority string) {
+	s.mu.Lock()
+	defer s.mu.Unlock()
+
+	s.tunnel = authority
+}
+
+// tunnelAuthority returns the authority of the MITM'd CONNECT tunnel the
+// session is in, or the empty string if there is none.
+func (s *Session) tunnelAuthority() string {
+	s.mu.RLock()
+	defer s.mu.RUnlock()
+
+	return s.tunnel
 }
 
 // Hijacked returns whether the connection has been hijacked.
